@@ -429,3 +429,34 @@ package schema
 //@   loop 1 invariant rawData != nil && fresh(rawData) && (forall j int :: 0 <= j && j <= idx ==> typeOf(rv_iface(rv_key(v, j))) == type(string) && skey(v, j) in o.PropertiesValue && skey(v, j) in rawData) && (forall k string :: k in rawData ==> k in o.PropertiesValue && supplied(v, k) && rawData[k] == suppliedV(v, k))
 //@   loop 2 invariant rawData != nil && fresh(rawData) && o.PropertiesValue == old(o.PropertiesValue) && o.fieldCache == nil && o.defaultValues == old(o.defaultValues) && (forall j int :: 0 <= j && j < rv_len(v) ==> typeOf(rv_iface(rv_key(v, j))) == type(string) && skey(v, j) in o.PropertiesValue && skey(v, j) in rawData) && (forall k string :: k in rawData ==> k in o.PropertiesValue && rawForm(v, old(o.defaultValues), rawData, k)) && (forall k string :: k in visited && !supplied(v, k) && k in old(o.defaultValues) ==> k in rawData)
 //@   loop 3 invariant rawData != nil && fresh(rawData) && o.PropertiesValue == old(o.PropertiesValue) && (forall j int :: 0 <= j && j < rv_len(v) ==> typeOf(rv_iface(rv_key(v, j))) == type(string) && skey(v, j) in o.PropertiesValue && skey(v, j) in rawData) && (forall k string :: k in rawData ==> k in o.PropertiesValue && (k in visited ? finalForm(o, v, old(o.defaultValues), rawData, k) : rawForm(v, old(o.defaultValues), rawData, k))) && (forall k string :: k in o.PropertiesValue && !supplied(v, k) && k in old(o.defaultValues) ==> k in rawData)
+
+// one-of: routing by the discriminator only, discriminator stripped or passed on per the inlining flag
+//@ func OneOfSchema.deleteDiscriminator(o, mymap) -> res
+//@   requires mymap != nil
+//@   ensures o.DiscriminatorInlined ==> res == mymap
+//@   ensures !o.DiscriminatorInlined ==> res != mymap && fresh(res) && (forall k string :: (k in res) == (k in mymap && k != o.DiscriminatorFieldNameValue)) && (forall k string :: k in res ==> res[k] == mymap[k])
+//@   assigns nothing
+
+//@ func OneOfSchema[int64].getTypedDiscriminator(o, discriminator) -> res, err
+//@   ensures typeOf(discriminator) == type(int64) ==> err == nil && res == discriminator.(int64)
+//@   ensures typeOf(discriminator) == type(uint64) && discriminator.(uint64) <= 9223372036854775807 ==> err == nil && res == discriminator.(uint64)
+//@   ensures typeOf(discriminator) == type(int) ==> err == nil && res == discriminator.(int)
+//@   ensures typeOf(discriminator) == type([]any) || typeOf(discriminator) == type(map[string]any) || discriminator == nil ==> err != nil
+//@   ensures err != nil ==> isCE(err)
+//@   assigns nothing
+
+//@ func OneOfSchema[string].getTypedDiscriminator(o, discriminator) -> res, err
+//@   ensures typeOf(discriminator) == type(string) ==> err == nil && res == discriminator.(string)
+//@   ensures typeOf(discriminator) == type([]any) || typeOf(discriminator) == type(map[string]any) || typeOf(discriminator) == type(bool) || discriminator == nil ==> err != nil
+//@   ensures err != nil ==> isCE(err)
+//@   assigns nothing
+
+//@ func OneOfSchema.validateMap(o, data) -> key, obj, err
+//@   requires data != nil
+//@   ensures err == nil ==> typeOf(data[o.DiscriminatorFieldNameValue]) == type(KeyType) && key == data[o.DiscriminatorFieldNameValue].(KeyType) && key in o.TypesValue && obj == o.TypesValue[key] && obj != nil
+//@   ensures err == nil ==> (exists m map[string]any :: (o.DiscriminatorInlined ? m == data : (m != data && (forall k string :: (k in m) == (k in data && k != o.DiscriminatorFieldNameValue)) && (forall k string :: k in m ==> m[k] == data[k]))) && compatOK(obj, any(m)))
+//@   ensures data[o.DiscriminatorFieldNameValue] == nil || typeOf(data[o.DiscriminatorFieldNameValue]) != type(KeyType) ==> err != nil
+
+//@ func OneOfSchema.UnserializeType(o, data) -> result, err
+//@   ensures err == nil && typeOf(result) == type(map[string]any) ==> o.DiscriminatorFieldNameValue in result.(map[string]any) && typeOf(result.(map[string]any)[o.DiscriminatorFieldNameValue]) == type(KeyType) && result.(map[string]any)[o.DiscriminatorFieldNameValue].(KeyType) in o.TypesValue
+//@   ensures data == nil || kindOf(data) != KindMap ==> err != nil
